@@ -712,6 +712,8 @@ package lorawan
 // entries for the standard CIDs (< 0x80) are what package init put there; proprietary
 // entries (>= 0x80) are added by RegisterProprietaryMACCommand
 //@ mutable macPayloadRegistry depth=1 keys>=128
+// C10: the registry is only read under macPayloadMutex (read or write lock) and only written under the write lock
+//@ protects macPayloadMutex: macPayloadRegistry
 //@ ginv registry_ok: forall up bool, c CID :: (c >= 128 && haskey(macPayloadRegistry[up], c)) ==> macPayloadRegistry[up][c].size >= 1 && macPayloadRegistry[up][c].size <= 255 && macPayloadRegistry[up][c].payload == funcid("RegisterProprietaryMACCommand$1")
 
 //@ func GetMACPayloadAndSize
